@@ -254,7 +254,9 @@ def check_cart(ctx, case):
                     return name + (":inferred_spacing_roundoff" if lattice.short_decimal(case["region"]) else ":inferred_nondecimal_spacing_roundoff")
             return name
         if o.ok:
-            got = float(o.value[0])
+            got = ctx.normalize("get_rates_one_point", lambda: float(numpy.asarray(o.value).reshape(1)[0]), c1)
+            if got is None:
+                continue
             if not cands:
                 src = [c for c in range(nc) if abs(float(rates[c, mb]) * FAC(factor, c, mb) - got) <= RT[0] * abs(got)]
                 ctx.violation(bucket("lookup_outside_region_returned_rate", src if src else -1),
@@ -346,7 +348,7 @@ def check_quad(ctx, case):
                 ctx.unexpected(o, "get_rates:" + case["k"] + tag, c1)
                 return
             want = float(rates[i, mb]) * FAC(factor, i, mb)
-            if len(o.value) != 1 or abs(float(o.value[0]) - want) > RT[0] * abs(want):
+            if numpy.asarray(o.value).shape != (1,) or abs(float(o.value[0]) - want) > RT[0] * abs(want):
                 ctx.violation("lookup_returns_other_rows_rate:" + case["k"] + tag, {"pt": [x, y, mv], "got": [float(v) for v in o.value], "want": want}, c1)
                 return
     ctx.count("lookups", 5 * len(keys))
